@@ -154,6 +154,18 @@ def _train_locals(f: FuncInfo, tps: Set[str]) -> Set[str]:
     return out
 
 
+def _preorder_index(root: ast.AST, node: ast.AST) -> int:
+    k = 0
+    stack = [root]
+    while stack:
+        cur = stack.pop()
+        if cur is node:
+            return k
+        k += 1
+        stack.extend(reversed(list(ast.iter_child_nodes(cur))))
+    return 1 << 30
+
+
 def _none_defaulted(a: ast.AST) -> Optional[str]:
     """`0.0 if X is None else X` / `X if X is not None else 0.0`: the name X, else None."""
     if not isinstance(a, ast.IfExp) or not isinstance(a.test, ast.Compare) or len(a.test.ops) != 1 \
@@ -273,8 +285,9 @@ def r_kernel_call_typestates(ctx, rules=('R15.1', 'R16.2', 'R18.4'), only_funcs:
                                     isinstance(n.body[0].targets[0], ast.Name) and n.body[0].targets[0].id == a.id and \
                                     isinstance(n.body[0].value, ast.Constant) and n.body[0].value.value in (0, 0.0) and \
                                     not isinstance(n.body[0].value.value, bool):
-                                # the conversion precedes the call in the same block or an enclosing one
-                                if n.lineno < call.lineno:
+                                # the conversion precedes the call in the same block or an enclosing one (position in the
+                                # function's own statement order: line numbers of inlined statements belong to the helper)
+                                if _preorder_index(f.node, n) < _preorder_index(f.node, call):
                                     good = True
                     if good:
                         obs.append(ok(r_tau, t, f.loc(call), construct=f"{_fn(f)}::{kname}::max_tau"))
